@@ -28,17 +28,7 @@ ASSUMPTIONS = ["inputs and outputs are disjoint; setup sites are not used as inp
 BUDGET = {"quick": {"shards": 4, "seconds": 40}, "thorough": {"shards": 16, "seconds": 420}}
 
 
-def dump(dag: Any) -> Any:
-    def ref(u: Any) -> Any:
-        return None if u is None else (u.id, list(u.key))
-
-    nodes = {}
-    for nid, xn in dag.exec_nodes.items():
-        nodes[nid] = (type(xn).__name__, [ref(a) for a in xn.args], {k: ref(v) for k, v in xn.kwargs.items()}, ref(xn.active),
-                      xn.priority, xn.is_sequential, str(xn.resource), xn.setup, xn.debug, xn.tag, xn.unpack_to)
-    consts = {k: repr(v) for k, v in dag.results.items()}
-    return (nodes, consts, [ref(u) for u in dag.input_uxns], repr(dag.return_uxns), dag.max_concurrency,
-            sorted(dag.graph_ids.edges), dict(dag.graph_ids.compound_priority))
+from ..dump import dump  # noqa: E402
 
 
 def run_case(case: Dict[str, Any]) -> CaseResult:
